@@ -333,6 +333,26 @@ def reduce_stubs():
     return out
 
 
+def effective_reducer(prog, stubs, cls):
+    """How pickle reduces an instance of `cls` (Cython semantics).
+
+    Cython installs the reducer it generates for class K as K.__reduce__ unless a __getstate__ is visible from K; a
+    subclass without its own reducer inherits K's, whose unpickle helper does K.__new__(subclass).
+    returns (kind, class): kind in 'hand' (hand-written __reduce__), 'auto' (generated, real), 'stub' (generated, raises),
+    'default' (object protocol with __getstate__/__setstate__), 'none'."""
+    for K in prog.mro(cls):
+        own = prog.classes[K].methods
+        if '__reduce__' in own or '__reduce_ex__' in own:
+            return 'hand', K
+        if K in stubs:
+            getstate_visible = prog.resolve_method(K, '__getstate__')[1] is not None
+            if not getstate_visible:
+                return ('stub' if stubs[K] else 'auto'), K
+    if prog.resolve_method(cls, '__getstate__')[1] is not None and prog.resolve_method(cls, '__setstate__')[1] is not None:
+        return 'default', cls
+    return 'none', None
+
+
 def check_picklable(ctx):
     prog = ctx.prog
     stubs = reduce_stubs()
@@ -345,14 +365,25 @@ def check_picklable(ctx):
             continue
         if cls.endswith('CSimInterface'):
             continue
-        hand = prog.resolve_method(cls, '__reduce__')[1] is not None or \
-            (prog.resolve_method(cls, '__getstate__')[1] is not None and prog.resolve_method(cls, '__setstate__')[1] is not None)
-        auto = stubs.get(cls)
-        ok = hand or auto is False
+        kind, K = effective_reducer(prog, stubs, cls)
+        problems = []
+        if kind == 'none':
+            problems.append('no reducer and no state methods')
+        elif kind == 'stub':
+            problems.append("the reducer in effect is %s's compiler-generated stub, which raises TypeError" % K)
+        elif kind == 'auto' and K != cls:
+            problems.append("pickle uses the reducer Cython generated for the base class %s: its helper calls %s.__new__(%s), which raises TypeError "
+                            "for a subclass with its own C-level layout, and the state methods of %s are ignored" % (K, K, cls, cls))
+        elif kind == 'hand':
+            dc, f = prog.resolve_method(cls, '__reduce__')
+            rets = [x for x in f.body if isinstance(x, ast.Return)]
+            first = rets[0].value.elts[0] if rets and isinstance(rets[0].value, ast.Tuple) and rets[0].value.elts else None
+            if K != cls and first is not None and k(src(first)) not in ('self.__class__', 'type(self)', 'restore_binary_term'):
+                problems.append("inherits %s.__reduce__, which rebuilds a %s, not a %s" % (K, src(first), cls))
         n += 1
-        ctx.ob('R17.3-picklable', cls, ok, '%s:%s' % (prog.mods[ci.module].rel, ci.node.lineno),
-               '%s can be pickled: hand-written state methods, or a real compiler-generated reducer' % cls,
-               'hand-written: %s; compiler-generated reducer: %s' % (hand, {None: 'none', True: 'stub that raises TypeError', False: 'real'}[auto]))
+        ctx.ob('R17.3-picklable', cls, not problems, '%s:%s' % (prog.mods[ci.module].rel, ci.node.lineno),
+               '%s can be pickled: the reducer in effect is its own (hand-written or compiler-generated and real) or the object protocol with its state methods' % cls,
+               '; '.join(problems) or 'reducer in effect: %s%s' % (kind, '' if K in (cls, None) else ' inherited from ' + K))
     return n
 
 
